@@ -6,6 +6,24 @@ ROOT = Path(__file__).resolve().parent.parent
 ALL = [f"C{i:02d}" for i in range(1, 19)]
 
 CHECKS = {
+ "C01": dict(
+    technique="Hypothesis-generated ODX descriptions (IR -> XML -> odxtools) x values; round trip compared with an independent reference interpreter's expectation",
+    text="Bounded exploration: thousands of generated request/response descriptions (all parameter kinds of the envelope, nested "
+         "structures, fields, multiplexers, length keys, bit positions, byte orders, encodings) x valid value assignments; "
+         "decode(encode(v)) must equal the reference expectation (defaults, constants, derived keys), consume the whole PDU, "
+         "reject a truncated static PDU, and agree through DiagService.encode_request / DiagLayer.decode.",
+    note="Trusted: vlib emitter and reference interpreter (vlib/refcodec.py, written from the ODX rules, no odxtools import), Hypothesis. "
+         "Envelope restrictions E1-E20 of DESIGN.md 2.1.",
+    design="3/C01"),
+ "C02": dict(
+    technique="differential testing against an independent big-integer reference encoder; exhaustive atomic parameter grid; both bitstruct backends",
+    text="Bounded exploration with an explicit non-implementation oracle: (a) the complete grid base type x encoding x byte order x "
+         "bit length 1..64 x bit position 0..7 with boundary and pattern values through EncodeState/DecodeState (and one-parameter XML "
+         "requests), (b) generated composite descriptions x values: odxtools PDU == reference PDU bit for bit, decode of the reference PDU "
+         "== values, overlap warning iff the reference used-bit mask has a doubly claimed bit, (c) the same cases in a sub-process "
+         "forced onto the pure-Python bitstruct backend with outcome digests compared, (d) bitstruct.c vs bitstruct on every format the codec builds.",
+    note="Trusted: the reference rules of DESIGN.md 2.3 (assumptions listed in the evidence), Hypothesis. Symmetric misreadings shared by the reference and odxtools are not detectable.",
+    design="3/C02"),
  "C16": dict(
     technique="Hypothesis RuleBasedStateMachine against a list model + exhaustive enumeration of short histories",
     text="Bounded exploration: random long histories (rule-based state machine, model = Python list of the same objects, "
